@@ -73,7 +73,12 @@ def run(tier, seed, replay=None):
             single = not isinstance(res, (list, tuple))
             # append round trip (curves, non-periodic pieces)
             rejoin = None
-            if pd == 1 and len(plist) > 1:
+            # Curve.append glues C0 ("assumes that the end of this curve perfectly matches the start of the input curve"):
+            # a curve that jumps at a split point (knot of multiplicity >= order there) cannot be re-joined by it, and the
+            # property does not ask for that
+            b0_ = spec['bases'][0]
+            jump_at_split = pd == 1 and any(b0_['knots'].count(x) >= b0_['order'] for x in pts)
+            if pd == 1 and len(plist) > 1 and not jump_at_split:
                 try:
                     cur = plist[0].clone()
                     for nxt in plist[1:]:
